@@ -11,7 +11,7 @@ ADDED = {
  "C05": "the history alphabet has 36 programs (macros failing mid-loop, macro variables named like context variables, regex and conversion built-ins, equal-shaped temporaries asked the same question, built-in names selected as members without a call); results are also compared with results computed before any history ran and with freshly compiled programs; the thread programs include a 9-deep macro nest. It also holds same-shaped programs with different literals, the first failing; and membership in equal-shaped temporary lists of eight strings.",
  "C06": "15 contexts (macro bodies of every form, nested macro, list element, map value, call argument, negated, compared, conditional branch); 6 error kinds incl. a call of an undeclared function; a second tree family with the literals true/false as two more leaf kinds (<= 2 operators quick, <= 3 thorough).",
  "C07": "host functions named like operators (`_h`), map/list literals with several entries, inner-macro templates, list-literal indexing. Also: multi-field paths has2 / has2-absent / has3 / select2.",
- "C08": "nested unary minus forms (-(-a), -(-(-a)), 0 - (-a), ...) over the whole int set.",
+ "C08": "nested unary minus forms (-(-a), -(-(-a)), 0 - (-a), ...) over the whole int set. Session 3: every ordered pair of a contiguous range (int -33..33 / uint 0..66 quick, -400..400 / 0..800 thorough), that range against the whole boundary set in both orders, and three-operand programs (25 operator pairs x {left-grouped, right-grouped, unparenthesised} over 14/11 (24/19) values per type): every intermediate result is range-checked, so widening, reassociation or folding is a wrong verdict.",
  "C09": "",
  "C10": "every list-valued macro chained as the range of every macro (same / different variable name); list-literal ranges of observable or variable-reading element expressions (value + visit log, outer name re-read after the macro); constant bodies over lists and maps (variable and literal ranges). Also: twin-elements (lists <= 3 over 1, 1u, 1.0, 2, 0.0, -0.0, [3], [3.0] x type-sensitive bodies); observable bodies that ignore the iteration variable (constant-argument logging calls, an erroring body).",
  "C11": "(A) value pool {1, 1u, 2, null} (equal-but-distinguishable twins; a name bound to null is bound), up to three nested child scopes; (B) two program profiles (ints; twins whose outer bindings equal the iterated elements in another numeric type), names read before and after nested macros, shadow chains of 2..4 map levels with every assignment of the three names to the levels and a null element at each level in turn. Also: chained scopes ({map, filter} as the range of every macro form x both iteration variables x one further name read in each body).",
